@@ -99,6 +99,35 @@ def commutative (fuel : Nat) (op : Ext → Ext → Ext) (identity default : Ext)
       uLay.zipIdx.map (fun (p : Ext × Nat) => if bt.contains p.2 then op p.1 (tLay[p.2]?.getD t.default) else p.1)
   normalize { physical := physical, paxes := x.gs, vaxes := x.lggs, default := default }
 
+/-- the shortcut of `sub` and `div` (not commutative): as `commutative`, except that in the last branch — the first
+operand's default is the identity and it has fewer physical elements — the second operand is first mapped by `flip`
+(negation / reciprocal) and laid out with the default `flip u.default`, and the positions the first operand backs are
+combined with `op2` (`add_` / `mul_`): `(-u) + t`, `(1/u) * t`. -/
+def shortcut2 (fuel : Nat) (op : Ext → Ext → Ext) (identity default : Ext) (flip : Ext → Ext) (op2 : Ext → Ext → Ext)
+    (t u : PT) (next : Nat) : PT :=
+  let x := expansion fuel t u next
+  let tLay := layout t x.paxes1 x.es
+  let uLay := layout u x.paxes2 x.fs
+  let newT := x.paxes1.take (x.paxes1.length - t.paxes.length)
+  let newU := x.paxes2.take (x.paxes2.length - u.paxes.length)
+  let shape := x.gs.map (·.2)
+  let backs := fun (phys : List Ext) (paxes : List (Nat × Nat)) (es : List Axis) =>
+    ((PT.mk phys paxes es (Ext.fin 0)).cells.map (fun c => Ax.flat shape c.1))
+  let cond := !(Ext.eqIEEE t.default identity) || x.paxes1.length != t.paxes.length ||
+              (x.paxes2.length == u.paxes.length && decide (t.physical.length ≥ u.physical.length))
+  let physical :=
+    if cond then
+      if Ext.eqIEEE u.default identity then
+        let bu := backs (expandFront u.physical newU) x.paxes2 x.fs
+        tLay.zipIdx.map (fun (p : Ext × Nat) => if bu.contains p.2 then op p.1 (uLay[p.2]?.getD u.default) else p.1)
+      else List.zipWith op tLay uLay
+    else
+      let u' : PT := { u with physical := u.physical.map flip, default := flip u.default }
+      let uLay' := layout u' x.paxes2 x.fs
+      let bt := backs (expandFront t.physical newT) x.paxes1 x.es
+      uLay'.zipIdx.map (fun (p : Ext × Nat) => if bt.contains p.2 then op2 p.1 (tLay[p.2]?.getD t.default) else p.1)
+  normalize { physical := physical, paxes := x.gs, vaxes := x.lggs, default := default }
+
 /-! ### protocol -/
 
 def boolExt (b : Bool) : Ext := if b then Ext.fin 1 else Ext.fin 0
@@ -139,6 +168,16 @@ def handle : List String → Option (Except String String)
         let r := commutative FUEL op ident (op t.default u.default) t u next
         let r2 := binary FUEL op (op t.default u.default) t u next
         pure (showPT r ++ " " ++ showBool r.wf ++ " " ++ showBool (showPT r == showPT r2))
+  | "C06.shortcut2" :: opn :: rest => some do
+      let (t, u, next) ← Tok.run (do let t ← parsePT; let u ← parsePT; let n ← Tok.nat; pure (t, u, n)) rest
+      if t.vaxes.length != u.vaxes.length then throw "ndim"
+      let (op, ident, flip, op2) ← match opn with
+        | "sub" => pure (Ext.sub, Ext.fin 0, (fun x => Ext.sub (Ext.fin 0) x), Ext.add)
+        | "div" => pure (Ext.div, Ext.fin 1, (fun x => Ext.div (Ext.fin 1) x), Ext.mul)
+        | _ => throw s!"bad op {opn}"
+      let r := shortcut2 FUEL op ident (op t.default u.default) flip op2 t u next
+      let r2 := binary FUEL op (op t.default u.default) t u next
+      pure (showPT r ++ " " ++ showBool r.wf ++ " " ++ showBool (showPT r == showPT r2))
   | _ => none
 
 end Fggs.Bn
